@@ -10,6 +10,8 @@ import json
 import os
 import random
 
+from sim.zoo import ZOO_ACC, ZOO_FN
+
 UINT_ABI = ["uint64", "uint32", "uint16", "uint8", "byte", "bool"]
 BYTES_ABI = ["string", "address"]
 COMPOSITE_ABI = ["(uint64,uint8)", "(bool,uint64,bool)", "uint64[]", "uint16[3]"]
@@ -211,6 +213,8 @@ class RecipeGen:
                 opts.append(("oget", 1))
             if self.f["tmpl"]:
                 opts.append(("tmpl", 4))
+            if self.f["zoo"]:
+                opts.append(("zoo", 3 if leaf else 6))
             if sc.abis_of(["uint64[]", "uint16[3]"]):
                 opts.append(("arrlen", 1))
             if not leaf:
@@ -223,6 +227,8 @@ class RecipeGen:
                 if self.f["wide"]:
                     opts.append(("wide", 1))
             k = self.pick(opts)
+            if k == "zoo":
+                return self.zoo_expr(sc, "u", d, leaf)
             if k == "int":
                 if self.f["consts"] and r.random() < 0.15:
                     return ["enum", r.choice(["pay", "axfer", "noop", "optin"])]
@@ -294,6 +300,8 @@ class RecipeGen:
                 opts.append(("oget", 1))
             if self.f["tmpl"]:
                 opts.append(("tmpl", 4))
+            if self.f["zoo"]:
+                opts.append(("zoo", 3 if leaf else 6))
             opts.append(("argb", 1))
             if not leaf:
                 opts += [("concat", 4), ("itob", 2), ("sha", 1), ("substr", 2)]
@@ -301,6 +309,8 @@ class RecipeGen:
                 if cs:
                     opts.append((("call", cs), 6))
             k = self.pick(opts)
+            if k == "zoo":
+                return self.zoo_expr(sc, "b", d, leaf)
             if k == "bytes":
                 if self.f["consts"]:
                     x = r.random()
@@ -356,6 +366,22 @@ class RecipeGen:
                     return ["call", j, self.call_args(sc, self.subs[j], d)]
                 return [k[0], k[1]]
         raise AssertionError(k)
+
+    def zoo_expr(self, sc: Scope, t: str, d: int, leaf: bool):
+        """one of PyTeal's simple constructors / accessors (sim/zoo.py) producing type t"""
+        r = self.r
+        mode_ok = lambda m: m == "any" or sc.mode == "app"  # noqa: E731
+        cands = [("fn", e) for e in ZOO_FN if e[2] == t and mode_ok(e[4]) and (not leaf or e[1] == "")]
+        cands += [("acc", e) for e in ZOO_ACC if e[3] == t and mode_ok(e[5]) and (not leaf or e[2] == "")]
+        if not cands:
+            return ["int", 1] if t == "u" else ["bytes", "z"]
+        kind, e = r.choice(cands)
+        pat = e[1] if kind == "fn" else e[2]
+        self.need(e[3] if kind == "fn" else e[4])
+        args = [self.expr(sc, c, d + 2) for c in pat]
+        if kind == "fn":
+            return ["zoo", "fn", e[0], args]
+        return ["zoo", e[6], e[0], e[1], args]
 
     def pick(self, opts):
         tot = sum(w for _, w in opts)
@@ -1029,6 +1055,7 @@ def _gen_features(r: random.Random) -> dict:
         "many_args": r.random() < 0.15,
         "ref_txn_args": r.random() < 0.4,
         "helpers": r.random() < 0.3,
+        "zoo": r.random() < 0.4,
         "shared_fns": r.random() < 0.2,
         "nonce": r.random() < 0.1,
         "named_tuples": r.random() < 0.35,
